@@ -189,6 +189,8 @@ Call ==
                                                     ELSE IF Kind = "sub" /\ c.v # 9 THEN ToBaseD(wx.dir, wx.vcwd, c.p) ELSE c.p, FALSE) IN
           \* removing or moving the working directory (or an ancestor of it) is outside the universe
           /\ ~(c.op \in {"remove", "removeall", "rename"} /\ rp.err = "ok" /\ rp.id # Root /\ rp.id \in Range(st.cwd))
+          \* (emptying the root directory takes the working directory away as well)
+          /\ ~(c.op = "removeall" /\ rp.err = "ok" /\ rp.id = Root /\ Len(st.cwd) > 1)
           \* (BasePathFS hands relative paths to the base as they are - KF31 - so the same exclusion applies to the
           \* path as the base reads it)
           /\ ~(Kind = "basepath" /\ ~c.p.abs /\ c.op \in {"remove", "removeall", "rename"}
